@@ -51,6 +51,17 @@ def curated():
         ('star', ('str', '!')), ('where', T, ('py', 'lambda v: v == o'))]))}))
     out.append(('apply-bound', {'start': ('let', 'x', T, ('seq', [
         ('apply', T, ('py', 'lambda v: (v, x)')), ('lapply', ('py', 'lambda v: [x, v]'), T)]))}))
+    # predicates that answer with truthy / falsy non-bool values (ints incl. 0 and 3, strings, lists,
+    # None), in tail position of a rule and in the middle of a sequence
+    out.append(('where-truthy-int', {'start': ('where', ('re', '[ab]*', False), ('py', 'len'))}))
+    out.append(('where-truthy-int-mid', {'start': ('seq', [('where', ('re', '[ab]*', False), ('py', 'lambda v: len(v) % 4')),
+                                                              ('opt', ('str', '!'))])}))
+    out.append(('where-truthy-value', {'start': ('star', ('ref', 'W')),
+                                       'W': ('where', ('alt', [('re', '[ab]', False), ('right', ('str', '0'), ('py', "''"))]),
+                                             ('py', 'lambda v: v'))}))
+    out.append(('where-truthy-list', {'start': ('where', ('star', ('str', 'a')), ('py', 'lambda v: v'))}))
+    out.append(('where-truthy-float-none', {'start': ('seq', [
+        ('where', D, ('py', 'lambda n: n * 1.5 if n != 2 else None')), ('where', T, ('py', "lambda v: {'a': 3, 'b': 0}[v]"))])}))
     # lookahead binding then real binding
     out.append(('expect-then-bind', {'start': ('seq', [
         ('expect', ('let', 'x', ('str', 'a'), R(1, 'x'))), ('let', 'x', T, ('seq', [T, R(2, 'x')]))])}))
@@ -97,6 +108,11 @@ def curated_classes():
         ('class', 'E', None, [('field', 'open', ('right', ('str', '('), T)),
                               ('field', 'items', ('star', ('ref', 'E'))),
                               ('field', 'close', ('where', ('right', ('str', ')'), T), ('py', 'lambda v: v == open')))])]))
+    out.append(('class-requires-truthy', [
+        ('rule', 'start', None, ('star', ('ref', 'Rq'))),
+        ('class', 'Rq', None, [('field', 'n', D), ('field', 'items', ('rep', ('str', 'x'), None, ('name', 'n'))),
+                               ('requires', 'len(items)')]),
+        ('class', 'Tail', None, [('field', 'n', D), ('requires', 'n')])]))
     out.append(('class-param', [
         ('rule', 'start', None, ('let', 'k', D, ('seq', [('call', 'Q', [('ref', 'k'), ('str', 'a')]), ('opt', ('call', 'Q', [('py', 'k + 1'), ('str', 'b')]))]))),
         ('class', 'Q', ['n', 'p'], [('field', 'items', ('rep', ('ref', 'p'), ('name', 'n'), ('name', 'n'))),
